@@ -10,3 +10,106 @@ pub fn run(cfg: &Cfg, out: &mut Out) {
         session(&mut r, out, Flavour::Values);
     }
 }
+
+/// Concurrent stream: `record()` threads racing `render()` / `run_upkeep()` on a real recorder under the
+/// deterministic scheduler (yield points of the bucket and the registry). Oracle: after everything finished, the
+/// rendered `_count` is the number of samples recorded and `_sum` their sum — every sample once — unless the trace
+/// has the signature of the known bucket finding (a push on a block that a drain detached meanwhile).
+pub fn run_concurrent(cfg: &Cfg, out: &mut Out) {
+    use metrics::{Key, Recorder};
+    use metrics_exporter_prometheus::PrometheusBuilder;
+    use std::sync::Arc;
+    static META: metrics::Metadata<'static> = metrics::Metadata::new("mv", metrics::Level::INFO, None);
+    let root = Rng::new(cfg.seed ^ 0xC07C);
+    let n = if cfg.thorough { 400 } else { 60 };
+    for i in 0..n {
+        let mut r = root.fork(i as u64);
+        out.case(&format!("concurrent seed={} i={}", cfg.seed, i));
+        let rec = Arc::new(PrometheusBuilder::new().build_recorder());
+        let handle = rec.handle();
+        let key = Key::from_name("lat");
+        let h = rec.register_histogram(&key, &META);
+        // the first cases are the targeted shape: the recorders' claims fill the block exactly, the first recorder is
+        // held between its slot claim and its publish while the others finish and the drain runs
+        let targeted = i < 6;
+        let prefill = if targeted { 64 - (1 + i % 3) } else { *r.pick(&[0usize, 1, 62, 63, 64, 65]) };
+        let mut total: u64 = 0;
+        for _ in 0..prefill {
+            h.record(1.0);
+            total += 1;
+        }
+        let nrec = if targeted { 1 + i % 3 } else { r.range(1, 3) };
+        let mut bodies: Vec<Box<dyn FnOnce() + Send + 'static>> = vec![];
+        for _ in 0..nrec {
+            let h = h.clone();
+            let k = if targeted { 1 } else { r.range(1, 2) };
+            total += k as u64;
+            bodies.push(Box::new(move || {
+                for _ in 0..k {
+                    h.record(1.0);
+                }
+            }));
+        }
+        let hd = handle.clone();
+        let renders = r.range(1, 2);
+        let upkeep = r.chance(1, 2);
+        bodies.push(Box::new(move || {
+            for _ in 0..renders {
+                if upkeep {
+                    hd.run_upkeep();
+                } else {
+                    let _ = hd.render();
+                }
+            }
+        }));
+        let nt = bodies.len();
+        let mut sch = vec![];
+        if targeted {
+            sch.extend(vec![0; 3]); // recorder 0: start, load tail, claim → parked before publish
+            for t in 1..nrec {
+                sch.extend(vec![t; 5]);
+            }
+            sch.extend(vec![nt - 1; 40]); // the drain
+            sch.extend(vec![0; 4]);
+        }
+        let mut cur = r.below(nt);
+        for _ in 0..80 {
+            if r.chance(2, 5) {
+                cur = r.below(nt);
+            }
+            sch.push(cur);
+        }
+        let run = crate::sched::run(bodies, &sch);
+        out.count(&format!("concurrent.prefill={}", prefill));
+        if run.deadlock || run.timed_out || !run.panicked.is_empty() {
+            out.oracle_fail("record racing render/upkeep: deadlock, timeout or panic", &format!("{:?}", run.trace));
+            continue;
+        }
+        let text = handle.render();
+        let fams = match crate::expo::check_exposition(&text) {
+            Ok(f) => f,
+            Err(e) => {
+                out.oracle_fail("render(): not well-formed exposition text", &e);
+                continue;
+            }
+        };
+        let count: Option<u64> = fams
+            .iter()
+            .flat_map(|f| f.samples.iter())
+            .find(|(n, _, _)| n == "lat_count")
+            .and_then(|(_, _, v)| v.parse().ok());
+        let sig = crate::c05::signatures_of_trace(&run.trace);
+        if run.trace.iter().any(|(_, id)| id.starts_with("bkt.clear")) && run.trace.iter().any(|(_, id)| *id == "blk.push.claim") {
+            out.nontrivial();
+        }
+        if count != Some(total) {
+            out.oracle_fail(
+                &format!(
+                    "histogram _count after record() raced render()/run_upkeep() is not the number of samples recorded [{}]",
+                    if sig.k1 { "K1:straggler-push-on-detached-block" } else { "no-known-signature" }
+                ),
+                &format!("want {} got {:?} trace {:?}", total, count, run.trace),
+            );
+        }
+    }
+}
